@@ -12,6 +12,15 @@ RULE = ("base inputs: TLC-certified general-position polygon sets (coordinates <
 def run(ctx):
     q = ctx.quick; s = ctx.seed
     fl = core.tlc_ok(core.tlc("FillLemmas", "FillLemmas.cfg", timeout=120), "FillLemmas"); ctx.add_tlc(fl)
+    # optional strengthening, never part of the verdict: the same lemmas for ALL integer windings, proved by TLAPS (SMT back end)
+    try:
+        pr = core.sh(["tlapm", "--toolbox", "0", "0", "FillProofs.tla"], timeout=240, cwd=core.SPEC)
+        out = (pr.stdout + pr.stderr).decode(errors="replace")
+        import re
+        m = re.search(r"All (\d+) obligations? proved", out)
+        ctx.extra["tlaps_fill_algebra_all_integers"] = {"obligations_proved": int(m.group(1))} if m else {"not_proved": out[-300:]}
+    except Exception as e:
+        ctx.extra["tlaps_fill_algebra_all_integers"] = {"unavailable": str(e)[:200]}
     jobs = []
     for k in range(12 if q else 32):
         jobs.append({"variant": "plain" if k % 2 == 0 else "hi", "args": {"seed": s * 1000 + k, "n": 5 if q else 25, "R": 32, "ncomp": 6 if q else 14, "npts": 100}, "out": ctx.path("repr_%02d.ndjson" % k)})
